@@ -121,7 +121,7 @@ async def observe(o):
     return out
 
 
-async def scenario(history, nsess, backend):
+async def scenario(history, nsess, backend, examine=()):
     errors = []
 
     def fail(label, text):
@@ -138,7 +138,7 @@ async def scenario(history, nsess, backend):
     sess, views = [], []
     for i in range(nsess):
         c = await w.client(f's{i}', **cred)
-        r = await c.cmd(b'SELECT INBOX')
+        r = await c.cmd(b'EXAMINE INBOX' if i in examine else b'SELECT INBOX')
         v = ClientView()
         for u in r['untagged']:
             v.apply(u, 'select')
@@ -197,7 +197,7 @@ async def scenario(history, nsess, backend):
     for c in sess:
         if c.exception() is not None:
             errors.append(('connection_survives', f'connection {c.name} died: {c.exception()!r}'))
-    return errors, (backend, nsess) + tuple(sig)
+    return errors, (backend, nsess, tuple(examine)) + tuple(sig)
 
 
 def histories(tier, seed):
@@ -223,9 +223,10 @@ def _show(w, c):
 
 
 def _worker(args):
-    hist, n, backend = args
+    hist, n, backend = args[:3]
+    examine = args[3] if len(args) > 3 else ()
     try:
-        errs, sig = run(scenario(hist, n, backend))
+        errs, sig = run(scenario(hist, n, backend, examine))
     except Exception as exc:    # noqa
         import traceback
         return args, [('harness', f'harness exception {exc!r} {traceback.format_exc()[-600:]}')], ()
@@ -244,6 +245,15 @@ def bounded_converge(label, backend='dict'):
             rnd.shuffle(items)
             items = items[: (160 if tier == 'quick' else 2500)]
         items = [(h, n, backend) for h, n in items]
+        # one of the sessions has the mailbox EXAMINEd: its STOREs are refused (NO [READ-ONLY]) -- a refused command must not
+        # leave anything behind that hides a later change by another session
+        al = ALPHABET
+        stores = [c for c in al if c[0] == 'store']
+        ro = [(((1, c1), (0, c2)), 2, backend, (1,)) for c1 in stores for c2 in stores]
+        ro += [(((1, c1), (None, ('poll',)), (0, c2)), 2, backend, (1,)) for c1 in stores[:4] for c2 in stores]
+        if backend != 'dict':
+            ro = ro[::4]
+        items += ro
         with mp.get_context('fork').Pool(16) as pool:
             for args, errs, sig in pool.imap_unordered(_worker, items, chunksize=4):
                 res.evaluations += 1
@@ -254,6 +264,7 @@ def bounded_converge(label, backend='dict'):
                         continue
                     seen.add(lab)
                     res.fail(f'{label}/{lab}', dict(backend=backend, sessions=args[1],
+                                                    read_only_sessions=[f's{i}' for i in (args[3] if len(args) > 3 else ())],
                                                     history=[_show(w, c) for w, c in args[0]]), [text])
                 if not errs and len(res.samples) < 2:
                     res.samples.append(dict(history=[_show(w, c) for w, c in args[0]], result='converged'))
